@@ -343,7 +343,58 @@ func rndSig(r *rand.Rand) absSig {
 			s.Descs = append(s.Descs, rndSeg(r))
 		}
 	}
+	if r.Intn(10) == 0 {
+		maxLists(r, &s)
+	}
 	return s
+}
+
+// maxLists puts a count field of the signal at (or next to) the top of its range: component_count of a component-mode
+// splice_insert (8 bits: 254 / 255), the component list of a segmentation descriptor (as many as descriptor_length
+// allows: 39 with a duration and nothing else, 22..38 with room for a UPID), a long multiple-UPID list.
+func maxLists(r *rand.Rand, s *absSig) {
+	switch r.Intn(3) {
+	case 0:
+		if s.Cmd.Kind != "insert" {
+			s.Cmd = absCmd{Kind: "insert", Eid: rndEid(r), Out: r.Intn(2) == 0, HasDur: r.Intn(2) == 0, Immediate: r.Intn(2) == 0, Spec: true,
+				Pts: rnd33(r), AutoRet: r.Intn(2) == 0, Dur: rnd33(r), Upid: r.Intn(65536), Avail: r.Intn(256), Avails: r.Intn(256)}
+		}
+		s.Cmd.Cancel, s.Cmd.Program = false, false
+		n := 254 + r.Intn(2)
+		s.Cmd.Comps = nil
+		for k := 0; k < n; k++ {
+			s.Cmd.Comps = append(s.Cmd.Comps, absComp{Tag: r.Intn(256), Spec: !s.Cmd.Immediate && r.Intn(3) != 0, Pts: rnd33(r)})
+		}
+	case 1:
+		d := rndSeg(r)
+		d.Cancel, d.ProgSeg, d.HasSub, d.Mid = false, false, false, nil
+		d.Comps = nil
+		n := []int{21, 22, 23, 30, 38, 39}[r.Intn(6)]
+		for k := 0; k < n; k++ {
+			d.Comps = append(d.Comps, absSegComp{Tag: r.Intn(256), Off: rnd33(r)})
+		}
+		d.UpidType, d.Upid = 9, rndBytes(r, 40)
+		if n == 39 {
+			d.HasDur = r.Intn(4) != 0
+		}
+		for len(d.bytes()) > 257 && len(d.Upid) > 0 { // tag + length + at most 255
+			d.Upid = d.Upid[:len(d.Upid)-1]
+		}
+		if len(d.bytes()) > 257 {
+			d.HasDur = false
+		}
+		s.Descs = append(s.Descs, d)
+	default:
+		d := rndSeg(r)
+		d.Cancel, d.UpidType, d.Upid, d.Mid, d.Comps, d.ProgSeg = false, 0x0d, nil, nil, nil, true
+		for k := 40 + r.Intn(60); k > 0; k-- {
+			d.Mid = append(d.Mid, absMid{Type: []int{9, 14, 1, 8, 15, 0}[r.Intn(6)], Upid: rndBytes(r, r.Intn(2))})
+		}
+		for len(d.bytes()) > 257 {
+			d.Mid = d.Mid[:len(d.Mid)-1]
+		}
+		s.Descs = append(s.Descs, d)
+	}
 }
 
 // ---- observation of a decoded / built signal through the public getters ----
